@@ -28,7 +28,7 @@ RULES = {
     'R11': 'an entry is findable by descriptor number only while it stands for a registration: a refused add leaves the slot without a number and check (as an emptied slot), and a successful add retires an entry that is being dispatched right now under the same number (the descriptor was closed and its number reused inside its own callback)',
     'R12': 'every signal number qb_loop_signal_add accepts can get the library\'s handler: the installation loop covers all numbers below NSIG',
 }
-FLOORS = {'R1': 4, 'R2': 5, 'R3': 12, 'R4': 9, 'R5': 3, 'R6': 5, 'R7': 1, 'R8': 2, 'R9': 1, 'R10': 1, 'R11': 2, 'R12': 1}
+FLOORS = {'R1': 6, 'R2': 5, 'R3': 12, 'R4': 9, 'R5': 3, 'R6': 5, 'R7': 1, 'R8': 2, 'R9': 1, 'R10': 1, 'R11': 2, 'R12': 1}
 
 
 def run(ctx):
@@ -46,6 +46,7 @@ def run(ctx):
     r10(ctx)
     r11(ctx, st)
     r12(ctx)
+    todo_accounting(ctx, 'R1')
 
 
 def r1(ctx):
@@ -594,3 +595,28 @@ def r12(ctx):
               'the handler installation loop runs over the signal numbers below %d = NSIG' % bound,
               'the handler installation loop stops at %d but signal numbers go up to %d (NSIG is %d): the highest signal is accepted by qb_loop_signal_add '
               'and never gets the handler - its delivery kills the process' % (bound, nsig - 1, nsig))
+
+
+def todo_accounting(ctx, rule):
+    """level->todo counts the items on job_head: qb_loop_level_item_del (which decrements it) may only be applied to items found
+    on a job list, never to items that are still on a wait list (they were never counted)"""
+    prog = ctx.prog
+    n = 0
+    for (g, ev) in prog.callers_of('qb_loop_level_item_del'):
+        # the list scan the call sits in: the "not yet back at the list head" guard (&item->list != &level->X_head) that dominates it
+        heads = set()
+        for (at, _edge) in g.guards(ev):
+            if at.op != '!=':
+                continue
+            for nd in list(walk(at.l)) + list(walk(at.r)):
+                if nd.get('k') == 'mem' and nd.get('f') in ('wait_head', 'job_head') and nd.get('rec') == 'qb_loop_level':
+                    heads.add(nd['f'])
+        if not heads:
+            continue
+        n += 1
+        ctx.check(rule, 'todo:item_del-only-on-job-list:%s' % g.name, heads == {'job_head'}, ev,
+                  'the helper that decrements todo is applied to items found on the job list',
+                  '%s removes an item it found on the %s with qb_loop_level_item_del: that helper decrements level->todo, which never counted this item - todo goes negative and '
+                  'hides one undispatched item from qb_loop_run, which then sleeps on it' % (g.name, sorted(heads)))
+    if n == 0:
+        raise AnalysisBroken('no list scan applies qb_loop_level_item_del')
